@@ -2,7 +2,9 @@ package fsm
 
 import (
 	"fmt"
+	"net"
 	"net/netip"
+	"strings"
 	"testing"
 	"time"
 
@@ -33,7 +35,10 @@ var (
 	c13Locals6   = []string{"", "2001:db8::100", "2001:db8::200"}
 	c13Srcs      = []string{"10.0.1.1", "10.0.1.2", "2001:db8::1", "2001:db8::2", "10.0.1.77", "2001:db8::77", "10.0.0.1"}
 	c13Dsts      = []string{"10.0.0.1", "10.0.0.9", "2001:db8::100", "2001:db8::200"}
-	c13States    = []string{"idle", "in-opensent", "in-openconfirm", "est-in", "est-out", "out-opensent", "helddown", "deleted"}
+	// helddown: NOTIFICATION received in OpenSent; -hdr: bad header sent by the remote in
+	// OpenConfirm; -fsm: a second OPEN in Established; -again: held down, quiet for more
+	// than 300 s, then a second protocol error
+	c13States = []string{"idle", "in-opensent", "in-openconfirm", "est-in", "est-out", "out-opensent", "helddown", "deleted", "helddown-hdr", "helddown-fsm", "helddown-again"}
 )
 
 // admit is the reference predicate (DESIGN.md Appendix A.7).
@@ -78,13 +83,59 @@ func c13World(t *testing.T, p c13Params) rt.Result {
 			}
 			return netip.MustParseAddr("2001:db8::100")
 		}
-		for _, pp := range p.Peers {
+		mkSpec := func(pp c13Peer) hz.PeerSpec {
 			ps := hz.StdPeer(pp.Addr)
 			ps.Hold = 90
 			ps.Passive = pp.Passive
 			if pp.Local != "" {
 				ps.LocalAddress = netip.MustParseAddr(pp.Local)
 			}
+			return ps
+		}
+		// peers with a two-error history first, all at once: the other states would not
+		// survive the 362 s of virtual time it takes
+		var again []*hz.RConn
+		for _, pp := range p.Peers {
+			if pp.State != "helddown-again" {
+				continue
+			}
+			ps := mkSpec(pp)
+			mons[pp.Addr] = w.MustAddPeer(ps)
+			rc := w.ConnectTo(ps.Addr, localFor(pp))
+			w.Settle()
+			if len(rc.Msgs()) != 1 {
+				w.Violate("setup: peer %s did not serve its first inbound connection", pp.Addr)
+				return
+			}
+			rc.SendNotification(3, 1, nil)
+			again = append(again, rc)
+		}
+		if len(again) > 0 {
+			w.Settle()
+			time.Sleep(362 * time.Second) // hold-down (60 s) over and more than 300 s without an error
+			for _, pp := range p.Peers {
+				if pp.State != "helddown-again" {
+					continue
+				}
+				rc := w.ConnectTo(netip.MustParseAddr(pp.Addr), localFor(pp))
+				w.Settle()
+				if len(rc.Msgs()) != 1 {
+					w.Violate("setup: peer %s did not serve an inbound connection 362 s after its protocol error", pp.Addr)
+					return
+				}
+				rc.SendNotification(2, 2, nil)
+				w.Settle()
+				if eof, _ := rc.EOF(); !eof {
+					w.Violate("setup: the second protocol error did not end the connection of %s", pp.Addr)
+					return
+				}
+			}
+		}
+		for _, pp := range p.Peers {
+			if pp.State == "helddown-again" {
+				continue
+			}
+			ps := mkSpec(pp)
 			if pp.State == "est-out" || pp.State == "out-opensent" {
 				acceptFor[ps.Addr] = true
 			}
@@ -92,12 +143,33 @@ func c13World(t *testing.T, p c13Params) rt.Result {
 			mons[pp.Addr] = mon
 			dst := localFor(pp)
 			switch pp.State {
-			case "in-opensent", "in-openconfirm", "est-in", "helddown":
+			case "in-opensent", "in-openconfirm", "est-in", "helddown", "helddown-hdr", "helddown-fsm":
 				rc := w.ConnectTo(ps.Addr, dst)
 				w.Settle()
 				if len(rc.Msgs()) != 1 {
 					w.Violate("setup: peer %s did not serve its first inbound connection", pp.Addr)
 					return
+				}
+				switch pp.State {
+				case "helddown-hdr":
+					rc.SendOpen(rc.StdOpen(ps.RemoteAS, 90, remoteIDu))
+					w.Settle()
+					rc.SendMsg("BAD-HEADER", wire.RawHeader(make([]byte, 16), 19, 4))
+					w.Settle()
+				case "helddown-fsm":
+					rc.SendOpen(rc.StdOpen(ps.RemoteAS, 90, remoteIDu))
+					w.Settle()
+					rc.SendKeepalive()
+					w.Settle()
+					rc.SendOpen(rc.StdOpen(ps.RemoteAS, 90, remoteIDu))
+					w.Settle()
+				}
+				if strings.HasPrefix(pp.State, "helddown-") {
+					if eof, _ := rc.EOF(); !eof {
+						w.Violate("setup: the protocol error (%s) did not end the connection of %s", pp.State, pp.Addr)
+						return
+					}
+					break
 				}
 				if pp.State == "helddown" {
 					rc.SendNotification(2, 2, nil)
@@ -206,6 +278,45 @@ func c13World(t *testing.T, p c13Params) rt.Result {
 				}
 			}
 		}
+		// address forms a real listener can present: an IPv4 peer seen through a
+		// dual-stack socket (16-byte IPv4-mapped TCPAddr), and non-TCP addresses
+		probe := func(desc string, want bool, rc *hz.RConn) {
+			w.Settle()
+			ms := rc.Msgs()
+			if (len(ms) > 0) != want {
+				if want {
+					w.Violate("[%s; peers %+v] must be handed to a BGP session (OPEN expected) but got [%s]", desc, p.Peers, typesOf(ms))
+				} else {
+					w.Violate("[%s; peers %+v] must be refused but corebgp sent [%s]", desc, p.Peers, typesOf(ms))
+				}
+				return
+			}
+			if want {
+				nAdmit++
+				rc.Close()
+				w.Settle()
+				return
+			}
+			nRefuse++
+			if eof, _ := rc.EOF(); !eof || rc.Received() != 0 {
+				w.Violate("[%s; peers %+v] refused connection was not closed silently (eof=%v, %d bytes)", desc, p.Peers, eof, rc.Received())
+			}
+		}
+		unix := &net.UnixAddr{Name: "/run/bgp.sock", Net: "unix"}
+		for _, pp := range p.Peers {
+			a := netip.MustParseAddr(pp.Addr)
+			dst := localFor(pp)
+			want := admit(pp.Addr, dst.String(), p.Peers)
+			if a.Is4() {
+				src16 := &net.TCPAddr{IP: net.IP(a.AsSlice()).To16(), Port: 40123}
+				dst16 := &net.TCPAddr{IP: net.IP(dst.AsSlice()).To16(), Port: 179}
+				probe(fmt.Sprintf("connection %s -> %s presented as IPv4-mapped TCP addresses (dual-stack listener)", pp.Addr, dst), want, w.ConnectRaw(lr.IntN(nl), a, src16, dst16))
+			}
+			// destination that is not an IP endpoint: only a peer without a configured local address can match
+			src := net.TCPAddrFromAddrPort(netip.AddrPortFrom(a, 40124))
+			probe(fmt.Sprintf("connection %s -> non-IP local address", pp.Addr), want && pp.Local == "", w.ConnectRaw(lr.IntN(nl), a, src, unix))
+		}
+		probe("connection from a non-IP remote address", false, w.ConnectRaw(lr.IntN(nl), netip.MustParseAddr("10.0.1.77"), unix, net.TCPAddrFromAddrPort(netip.AddrPortFrom(netip.MustParseAddr("10.0.0.1"), 179))))
 		// bursts: three connections from one configured peer at the same virtual
 		// instant; at most one may be served, the others are closed without a byte
 		// and none may be left open (the accountant at Close catches a forgotten one)
